@@ -214,6 +214,12 @@ func (st *State) specIdent(name string, env *specEnv) Value {
 	case "nil":
 		return Value{S: "nil", Term: "nil"}
 	case "result":
+		if len(env.result) == 0 && env.frame != nil {
+			// inside an invariant there is no function result: a local variable may be called "result"
+			if v, ok := st.localByName(env.frame, name, env); ok {
+				return v
+			}
+		}
 		if len(env.result) == 1 {
 			return env.result[0]
 		}
@@ -234,26 +240,8 @@ func (st *State) specIdent(name string, env *specEnv) Value {
 	}
 	// locals first when evaluating loop invariants
 	if env.frame != nil {
-		f := env.frame
-		var best *ssa.Alloc
-		for _, al := range f.cellOrder {
-			if al.Comment == name {
-				best = al
-			}
-		}
-		if best != nil {
-			return st.cellVals[f.cells[best]]
-		}
-		for fv, l := range f.fvCells {
-			if fv.Name() == name && l.Loc != nil {
-				return st.readLoc(l.Loc)
-			}
-		}
-		// non-cellable allocs (heap objects) by name
-		for v, r := range f.regs {
-			if al, ok := v.(*ssa.Alloc); ok && al.Comment == name && r.Term != "" {
-				return st.loadH(env.heap, r.Term, al.Type().(*types.Pointer).Elem())
-			}
+		if v, ok := st.localByName(env.frame, name, env); ok {
+			return v
 		}
 	}
 	if v, ok := env.vars[name]; ok {
@@ -269,6 +257,31 @@ func (st *State) specIdent(name string, env *specEnv) Value {
 	env.fail("unknown identifier %q", name)
 	_ = te
 	return Value{}
+}
+
+// localByName: current value of the local variable (or captured variable) called name.
+func (st *State) localByName(f *Frame, name string, env *specEnv) (Value, bool) {
+	var best *ssa.Alloc
+	for _, al := range f.cellOrder {
+		if al.Comment == name {
+			best = al
+		}
+	}
+	if best != nil {
+		return st.cellVals[f.cells[best]], true
+	}
+	for fv, l := range f.fvCells {
+		if fv.Name() == name && l.Loc != nil {
+			return st.readLoc(l.Loc), true
+		}
+	}
+	// non-cellable allocs (heap objects) by name
+	for v, r := range f.regs {
+		if al, ok := v.(*ssa.Alloc); ok && al.Comment == name && r.Term != "" {
+			return st.loadH(env.heap, r.Term, al.Type().(*types.Pointer).Elem()), true
+		}
+	}
+	return Value{}, false
 }
 
 // ghostType resolves a ghost variable's declared type in the package it was declared in.
@@ -723,6 +736,14 @@ func (st *State) resolveSpecType(name string, env *specEnv) (types.Type, Sort) {
 				return o.Type(), te.SortOf(o.Type())
 			}
 		}
+		// a module package referred to by its name (trusted specs cannot import)
+		for path, pk := range st.eng.prog.Pkgs {
+			if strings.HasPrefix(path, modPath) && pk.Types != nil && pk.Types.Name() == pn {
+				if o, ok := pk.Types.Scope().Lookup(tn).(*types.TypeName); ok {
+					return o.Type(), te.SortOf(o.Type())
+				}
+			}
+		}
 	}
 	if env.pkg != nil {
 		if o, ok := env.pkg.Scope().Lookup(name).(*types.TypeName); ok {
@@ -990,6 +1011,12 @@ func (st *State) specCall(e *SExpr, env *specEnv) Value {
 			}
 			for i, p := range d.Params {
 				sub.vars[p] = st.evalSpec(args[i], env)
+			}
+			sub.oldVars = sub.vars
+			if d.Pkg != "" {
+				if sp := st.eng.ssaPkg(d.Pkg); sp != nil {
+					sub.pkg = sp.Pkg // names in the body are those of the package that wrote the definition
+				}
 			}
 			return st.evalSpec(d.Body, &sub)
 		}
